@@ -64,7 +64,7 @@ class Ctx:
             try:
                 rep = verify_function(eng, con)
             except Exception as e:   # the checker itself broke
-                self.checker_errors.append(f"{con.key}: {type(e).__name__}: {e}\n{traceback.format_exc()[-1500:]}")
+                self.checker_errors.append(f"{con.key}: {type(e).__name__}: {e}\n{traceback.format_exc()[-4000:]}")
                 continue
             fr = {"function": con.key, "sha": rep.sha, "lines": rep.lines, "file": rep.path,
                   "scenarios": rep.scenarios, "paths": rep.paths, "obligations": len(rep.obligations),
